@@ -777,3 +777,40 @@ def r13(ctx):
     if n < 10:
         raise AnalysisError(f"custom actions: only {n} rows recognised")
     ctx.floor(10)
+
+
+@rule("C12.R14", "_load_compilers publishes the table it built on every normal exit (whole-function must-pass-through)")
+def r14(ctx):
+    """The compiler definitions are collected into a table that ArgumentParser reads from the module variable
+    `_compilers`.  Whatever container the loader fills, every path to a normal exit (each early `return` of the user
+    configuration part included) must have (re)bound `_compilers`, and - when the loader fills a local container -
+    must pass through the statement that publishes that container; otherwise an exit leaves None (first use: every
+    compiler crashes) or the previous project's table (its options and aliases leak)."""
+    from ..cfg import cfg_of
+
+    repo = ctx.repo
+    lc = repo.func("config", "_load_compilers")
+    cfg = cfg_of(lc)
+    glob = {n for s in lc.body_nodes() if isinstance(s, ast.Global) for n in s.names}
+    fills = {}
+    for s in lc.body_nodes():
+        if isinstance(s, ast.Assign) and isinstance(s.targets[0], ast.Subscript) and isinstance(s.value, ast.Call) and u(s.value.func).endswith("from_toml") and isinstance(s.targets[0].value, ast.Name):
+            fills.setdefault(s.targets[0].value.id, []).append(s)
+    if not fills:
+        raise AnalysisError("_load_compilers: no `<table>[name] = _Compiler.from_toml(...)` found")
+    binds = [s for s in lc.body_nodes() if isinstance(s, ast.Assign) and any(isinstance(t, ast.Name) and t.id == "_compilers" for t in s.targets)]
+    ctx.check("_compilers" in glob, "config:_load_compilers:publishes:global", "`_compilers` is not declared global in the loader: what it builds stays local", lc.loc())
+    bind_nodes = {cfg.node_of(s) for s in binds} - {None}
+    ok = bool(bind_nodes) and cfg.all_paths_through(cfg.entry, {cfg.exit}, bind_nodes)
+    ctx.check(ok, "config:_load_compilers:publishes:every-exit-rebinds", "a normal exit of the loader is reachable without `_compilers` having been (re)bound: the table of a previous load (another project's user configuration) stays in effect", lc.loc())
+    for name, stmts in sorted(fills.items()):
+        if name == "_compilers":
+            ctx.ok("config:_load_compilers:publishes:_compilers")
+            continue
+        pub = [s for s in binds if isinstance(s.value, ast.Name) and s.value.id == name]
+        pub_nodes = {cfg.node_of(s) for s in pub} - {None}
+        ok = bool(pub_nodes) and cfg.all_paths_through(cfg.entry, {cfg.exit}, pub_nodes)
+        rets = [s for s in lc.body_nodes() if isinstance(s, ast.Return)]
+        bad = [s for s in rets if not pub_nodes or not cfg.all_paths_through(cfg.entry, {cfg.node_of(s)}, pub_nodes)]
+        ctx.check(ok, f"config:_load_compilers:publishes:{name}", f"the definitions are collected in the local `{name}` and published by `{u(pub[0]) if pub else '(nothing)'}`, which the exit(s) at line(s) {[s.lineno for s in bad][:4]} do not pass through: after such an exit `_compilers` is None (every compiler lookup crashes) or still holds the previous load", lc.loc(bad[0] if bad else None))
+    ctx.floor(3)
